@@ -63,11 +63,12 @@ type World struct {
 	P     *world.Proxy
 	Back  *world.Backend
 	ncode int
+	Prov  string
 }
 
 // NewWorld builds it.
 func NewWorld(provider string) (*World, error) {
-	w := &World{IdP: world.NewFakeIdP()}
+	w := &World{IdP: world.NewFakeIdP(), Prov: provider}
 	a, err := world.NewAuth(world.AuthOpts{Provider: provider, Host: authHost, RootDomains: []string{"root.test"}, EmailDomains: []string{"allowed.test"}}, w.IdP)
 	if err != nil {
 		return nil, err
@@ -257,10 +258,26 @@ func (w *World) Replay(base int, evs []Ev, r *rand.Rand) ([]Line, error) {
 		return nil, fmt.Errorf("login: %v", err)
 	}
 	saved := b.pc
+	// every fourth browser holds an authenticator session WITHOUT a refresh token (a grant without offline access).
+	// Okta's revocation takes the refresh token: with none to give, the identity provider refuses the call, nothing is
+	// revoked, and "if revocation fails the user is told and stays signed in" - the model's "ok" answer cannot happen.
+	noRT := r.Intn(4) == 0
+	if noRT {
+		as, err := sessions.UnmarshalSession(b.ac, w.A.Cookie)
+		if err != nil {
+			return nil, err
+		}
+		as.RefreshToken = ""
+		b.ac = w.A.SealCookie(as)
+	}
 	lines := []Line{{Ev: "reset", Case: base}}
 	emitted := ""
 	due := false
+	altered := false
 	for i, e := range evs {
+		if altered {
+			break // the behaviour was the model's; after an answer the model did not choose, its rest no longer applies
+		}
 		ln := Line{Ev: e.Op, Case: base + i + 1, Sig: e.Sig, Rev: e.Rev, To: e.To}
 		conc := map[string]interface{}{}
 		ln.Conc = conc
@@ -306,6 +323,11 @@ func (w *World) Replay(base int, evs []Ev, r *rand.Rand) ([]Line, error) {
 			}
 			q := w.signOutParams(emitted, e.Sig, r)
 			w.IdP.Script(map[string]world.IdpAnswer{})
+			if e.Op == "apost" && noRT && w.Prov == "okta" && e.Rev == "ok" && e.Sig == "valid" {
+				e.Rev, ln.Rev = "error", "error"
+				altered = true
+				conc["note"] = "the session has no refresh token: Okta has nothing to revoke it by and refuses"
+			}
 			if e.Op == "apost" {
 				switch e.Rev {
 				case "error":
@@ -434,6 +456,60 @@ func (w *World) Replay(base int, evs []Ev, r *rand.Rand) ([]Line, error) {
 	return lines, nil
 }
 
+// twinSignOut: the same user is signed in on two devices (two logins, two token families) and confirms sign-out on
+// both at the same time; the identity provider answers slowly, so the two revocations overlap. Each sign-out is
+// judged on its own: a browser whose authenticator cookie was cleared had ITS token revoked at the identity provider.
+func (w *World) twinSignOut(base int, r *rand.Rand) ([]Line, error) {
+	bs := []*browser{{}, {}}
+	toks := make([]string, 2)
+	qs := make([]url.Values, 2)
+	for i, b := range bs {
+		if err := w.login(b); err != nil {
+			return nil, fmt.Errorf("twin login: %v", err)
+		}
+		as, err := sessions.UnmarshalSession(b.ac, w.A.Cookie)
+		if err != nil {
+			return nil, err
+		}
+		toks[i] = as.AccessToken
+		resp, _, err := w.to(b, "GET", "http://"+appHost+"/oauth2/sign_out", nil, nil)
+		if err != nil {
+			return nil, err
+		}
+		qs[i] = w.signOutParams(resp.Header.Get("Location"), "valid", r)
+	}
+	w.IdP.Script(map[string]world.IdpAnswer{})
+	w.IdP.SetDelay(time.Duration(3+r.Intn(8)) * time.Millisecond)
+	defer w.IdP.SetDelay(0)
+	u := "http://" + authHost + w.A.Path("sign_out")
+	resps := make([]*world.Resp, 2)
+	before := []string{bs[0].ac, bs[1].ac}
+	var wg sync.WaitGroup
+	for k := 0; k < 2; k++ {
+		wg.Add(1)
+		go func(i int) {
+			defer wg.Done()
+			cs := []*http.Cookie{{Name: w.A.CookieName, Value: before[i]}}
+			resps[i] = world.Do(w.A.Handler, world.NewReq("POST", authHost, w.A.Path("sign_out")+"?"+qs[i].Encode(), nil, cs, ""))
+		}(k)
+		if k == 0 {
+			time.Sleep(time.Duration(r.Intn(2000)) * time.Microsecond)
+		}
+	}
+	wg.Wait()
+	var lines []Line
+	for i := range bs {
+		after, touched := resps[i].CookieAfter(w.A.CookieName, before[i])
+		ln := Line{Ev: "atwin", Case: base + i, Sig: "valid", Rev: "ok", To: "none", Status: resps[i].Status}
+		ln.Cleared = touched && after == ""
+		ln.Revoke = w.IdP.IsRevoked(toks[i])
+		ln.Back = resps[i].Status/100 == 3
+		ln.Conc = map[string]interface{}{"url": u, "query": qs[i].Encode(), "location": resps[i].Header.Get("Location"), "note": "two devices of one user confirm sign-out at the same time"}
+		lines = append(lines, ln)
+	}
+	return lines, nil
+}
+
 // Summary mirrors the other drivers.
 type Summary struct {
 	Driver   string                 `json:"driver"`
@@ -508,6 +584,14 @@ func Run(in, out string, seed int64, sample, workers, only int, target string) (
 					return
 				}
 				ls[0].Conc = map[string]interface{}{"behaviour": idx[j], "provider": prov, "events": behs[idx[j]]}
+				if only >= 0 || j%4 == 0 {
+					tl, err := w.twinSignOut(idx[j]*1000+900, rand.New(rand.NewSource(seed*983+int64(idx[j]))))
+					if err != nil {
+						firstErr.Store(err)
+						return
+					}
+					ls = append(ls, tl...)
+				}
 				res[j] = ls
 			}
 		}(wk)
